@@ -402,9 +402,13 @@ func (t QualifiedRule) serializeTo(writer io.StringWriter) {
 }
 
 func (t AtRule) serializeTo(writer io.StringWriter) {
-	writer.WriteString("@")
-	writer.WriteString(serializeIdentifier(t.AtKeyword))
-	serializeTo(t.Prelude, writer)
+	// the at-keyword and the prelude are written as one token list, so that a separator
+	// is inserted when the first prelude token would otherwise extend the keyword
+	// (`@media/**/screen` parsed with comments skipped)
+	tokens := make([]Token, 0, len(t.Prelude)+1)
+	tokens = append(tokens, AtKeyword{stringVal{Value: t.AtKeyword}})
+	tokens = append(tokens, t.Prelude...)
+	serializeTo(tokens, writer)
 	if t.Content == nil {
 		writer.WriteString(";")
 	} else {
